@@ -78,6 +78,15 @@ func (g *Gen) step(fn *ssa.Function, st *State, in ssa.Instruction) {
 			st.cells[p.Elem.Cell] = cv
 		case p.Kind == "fieldcell":
 			st.cells[p.Cell] = setPath(st.cells[p.Cell], strings.Split(p.Idx, "."), v)
+		case p.Kind == "heapfield" && v.Kind == "slice" && v.Ref != "":
+			g.frameFieldStore(st, p.Idx, nil, x.Pos())
+			for _, part := range [][2]string{{"", v.Ref}, {"#off", v.Off}, {"#len", v.Len}} {
+				k := p.Idx + part[0]
+				if _, ok := g.heapSort[k]; !ok {
+					g.heapSort[k] = "(Array Int Int)"
+				}
+				st.heap[k] = g.def("H", "(Array Int Int)", fmt.Sprintf("(store %s %s %s)", g.heapGet(st, k), p.T, part[1]))
+			}
 		case p.Kind == "heapfield":
 			if v.Kind != "int" && v.Kind != "bool" && v.Kind != "err" && v.Kind != "opaque" && v.Kind != "map" {
 				panic(oos("store of " + v.Kind + " value into heap field " + p.Idx))
@@ -333,6 +342,25 @@ func (g *Gen) heapRead(st *State, key, obj string, t types.Type) Val {
 		return g.mapFromRef(st, e, u, t)
 	case *types.Signature:
 		return Val{T: e, Kind: "opaque", Ty: t}
+	case *types.Slice:
+		for _, sfx := range []string{"#off", "#len"} {
+			if _, ok := g.heapSort[key+sfx]; !ok {
+				g.heapSort[key+sfx] = "(Array Int Int)"
+			}
+		}
+		off := fmt.Sprintf("(select %s %s)", g.heapGet(st, key+"#off"), obj)
+		ln := fmt.Sprintf("(select %s %s)", g.heapGet(st, key+"#len"), obj)
+		g.assume(st, fmt.Sprintf("(and (>= %s 0) (<= 0 %s) (<= %s %s) (<= 0 %s) (<= %s %s) (=> (= %s 0) (= %s 0)))", e, off, off, maxLen, ln, ln, maxLen, e, ln))
+		known := false
+		for _, r := range st.refs {
+			if r == e {
+				known = true
+			}
+		}
+		if !known {
+			st.refs = append(st.refs, e)
+		}
+		return Val{Ref: e, Off: off, Len: ln, Kind: "slice", Ty: t}
 	}
 	return g.symFor(t, "hload", st)
 }
